@@ -27,6 +27,8 @@ def _f(name, *tys):
 
 DROP_OF, SPEC_OF, MAT_OF = _f("drop_of", MATRIX, DROP), _f("spec_of", MATRIX, SPEC), _f("mat_of", MATRIX, MAT)
 DATA_OF, CTX_OF = _f("data_of", MAT, DATA), _f("ctx_of", MAT, CTX)
+JOINT = z3.Function("joint", MATRIX.sort(), z3.BoolSort())       # every part of the result was built by ONE materializer pass (one factor cache, one drop set)
+LEAVES = z3.Function("leaves", SPEC.sort(), TSeq(SPEC).sort())   # Structured._flatten()
 UPDATE = _f("update", SPEC, KW, SPEC)
 FROM_SPEC = _f("from_spec", SPEC, CTX, KW, SPEC)
 NONE_DROP = z3.Const("None:drop_rows", DROP.sort())
@@ -40,6 +42,7 @@ def fn(f, rty):
 
 SPEC_ENV = {"drop_of": fn(DROP_OF, DROP), "spec_of": fn(SPEC_OF, SPEC), "mat_of": fn(MAT_OF, MAT), "data_of": fn(DATA_OF, DATA),
             "ctx_of": fn(CTX_OF, CTX), "update": fn(UPDATE, SPEC), "from_spec": fn(FROM_SPEC, SPEC),
+            "joint": fn(JOINT, TBool), "leaves": fn(LEAVES, TSeq(SPEC)),
             "NO_CTX": V(CTX, NONE_CTX), "NO_KW": V(KW, EMPTY_KW), "NO_DROP": V(DROP, NONE_DROP)}
 
 TRUTHY = {"Kw": lambda v: v.t != EMPTY_KW}
@@ -55,8 +58,8 @@ def build():
     # ---- trusted: the materializer and helpers ----------------------------------------------------------------
     mat_gmm = Contract("FormulaMaterializer.get_model_matrix", params={"self": "Mat", "spec": "Spec", "drop_rows": "DropRef"}, returns=MATRIX,
                        spec_env=SPEC_ENV, trusted=True,
-                       ensures=["drop_of(result) == drop_rows", "spec_of(result) == spec", "mat_of(result) == self"],
-                       notes="defines the provenance ghosts: the materializer builds the matrix for `spec` with the drop-set object it is handed")
+                       ensures=["drop_of(result) == drop_rows", "spec_of(result) == spec", "mat_of(result) == self", "joint(result)"],
+                       notes="defines the provenance ghosts: the materializer builds the matrix for `spec` (all of its parts in one pass: `joint`) with the drop-set object it is handed")
     mat_gmm.defaults = {"drop_rows": V(DROP, NONE_DROP)}
     reg.add(mat_gmm, as_method=("Mat", "get_model_matrix"))
 
@@ -111,8 +114,11 @@ def build():
     # ---- ModelSpecs.get_model_matrix (structured specs) -----------------------------------------------------------
     MATNAME_O, PARAMS_O = TOpt(MATNAME), TOpt(PARAMS)
     for attr, ty in (("materializer", MATNAME_O), ("materializer_params", PARAMS_O)):
-        reg.add(Contract(f"ModelSpec.{attr}", params={"self": "Spec"}, returns=ty, is_property=True, trusted=True, notes="dataclass field"), as_method=("Spec", attr))
-    reg.add(Contract("Structured._flatten", params={"self": "Spec"}, returns=TSeq(SPEC), trusted=True, notes="leaves of a structured spec (C19 bounded)"),
+        fld = z3.Function(f"field_{attr}", SPEC.sort(), ty.sort())
+        reg.add(Contract(f"ModelSpec.{attr}", params={"self": "Spec"}, returns=ty, is_property=True, trusted=True, notes="dataclass field (a function of the frozen spec)",
+                         spec_env={f"field_{attr}": fn(fld, ty)}, ensures=[f"result == field_{attr}(self)"]), as_method=("Spec", attr))
+    reg.add(Contract("Structured._flatten", params={"self": "Spec"}, returns=TSeq(SPEC), trusted=True, spec_env=SPEC_ENV, ensures=["result == leaves(self)"],
+                     notes="leaves of a structured spec (C19 bounded)"),
             as_method=("Spec", "_flatten"))
 
     def n_map(eng, args, kw, n, st):
@@ -147,12 +153,20 @@ def build():
         params={"self": "Spec", "data": "Data", "context": "Ctx", "drop_rows": "DropRef", "attr_overrides": "Kw"}, returns=MATRIX,
         spec_env=SPEC_ENV, truthy_of=TRUTHY, globals=G2, cls="ModelSpecs",
         local_types={"materializer": MATNAME_O, "materializer_params": PARAMS_O},
-        loops={0: {"inv": ["True"]}},
+        lets={"L": "leaves(self)"},
+        # all leaves carry the same materializer and the same materializer parameters (the state of `mm.model_spec` after a build)
+        defs={"uniform": (["z"], "forall(lambda i: implies(0 <= i and i < len(L), L[i].materializer == L[0].materializer and "
+                              "L[i].materializer_params == L[0].materializer_params))")},
+        loops={0: {"inv": ["implies(uniform(0), (materializer is None or materializer == L[0].materializer) and "
+                           "(materializer_params is None or materializer_params == L[0].materializer_params))"]}},
         ensures=[
             "drop_of(result) == drop_rows",
             "spec_of(result) == ite(attr_overrides, from_spec(self, NO_CTX, attr_overrides), self)",
             "data_of(mat_of(result)) == data",
             "ctx_of(mat_of(result)) == context",
+            # C07 (all parts contain the same rows; the attached specs regenerate the result): specs that share materializer and
+            # parameters are generated JOINTLY - one materializer, one pooled null scan - never part by part
+            "implies(not attr_overrides and uniform(0), joint(result))",
         ], props=["C05", "C06", "C07"])
     cs.append(reg.add(mss))
 
